@@ -12,10 +12,11 @@ LfaNews == IF Tier = "q" THEN {64, 128} ELSE {64, 72, 200}
 Slacks == IF Tier = "q" THEN {0, 8} ELSE {0, 3, 8}
 Trails == IF Tier = "q" THEN {0, 3, 8} ELSE {0, 1, 7, 8, 11}
 Certs == IF Tier = "q" THEN {0, 16} ELSE {0, 8, 24}
-Gaps == IF Tier = "q" THEN {0} ELSE {0, 5}
+Gaps == {0, 5}
+GapPoss == IF Tier = "q" THEN {1} ELSE {1, 2}
 
-Layouts(bits) == {[bits |-> bits, lfanew |-> lf, secs |-> ss, slack |-> sl, gap |-> gp, gappos |-> 1, trail |-> tr, cert |-> ce] :
-                    lf \in LfaNews, ss \in SecSeqs, sl \in Slacks, tr \in Trails, ce \in Certs, gp \in Gaps}
+Layouts(bits) == {[bits |-> bits, lfanew |-> lf, secs |-> ss, slack |-> sl, gap |-> gp, gappos |-> (IF gp = 0 THEN 1 ELSE gq), trail |-> tr, cert |-> ce] :
+                    lf \in LfaNews, ss \in SecSeqs, sl \in Slacks, tr \in Trails, ce \in Certs, gp \in Gaps, gq \in GapPoss}
 MCInit == \E bits \in {32, 64} : \E i \in Layouts(bits) : Start(i)
 
 (* a few layouts with sections larger than 32 KiB (positional reads cross chunk and part boundaries) *)
